@@ -128,6 +128,7 @@ Flat(ss) == IF ss = <<>> THEN <<>> ELSE Head(ss) \o Flat(Tail(ss))
 QuorumGroups(R) == SelectSeq(Flat([j \in DOMAIN R |-> R[j].groups]), LAMBDA g : g.q)
 Aggregated(R) == LET qs == QuorumGroups(R) IN [j \in DOMAIN qs |-> [m |-> qs[j].m, by |-> AggBy(qs[j])]]
 HasIncomplete(R) == \E g \in Groups(R) : ~g.q
+Malformed(R) == \E g \in Groups(R) : g.m = NoMsg                                 \* "message": null
 EntryFor(R, v) == IF \E j \in DOMAIN R : R[j].v = v THEN R[MaxOf({j \in DOMAIN R : R[j].v = v})] ELSE NoEntry
 FirstWhere(gs, P(_)) == IF \E j \in DOMAIN gs : P(gs[j]) THEN gs[MinOf({j \in DOMAIN gs : P(gs[j])})] ELSE NoGroup
 LastWhere(gs, P(_)) == IF \E j \in DOMAIN gs : P(gs[j]) THEN gs[MaxOf({j \in DOMAIN gs : P(gs[j])})] ELSE NoGroup
@@ -253,7 +254,7 @@ ApiStep(c, f, code, ok, R) ==
      /\ produced' = produced \cup (IF q.kind = "post" THEN {[m |-> q.parts[j].m, k |-> q.parts[j].sk] : j \in DOMAIN q.parts}
                                    ELSE IF good THEN SigsIn(R) ELSE {})
      /\ CASE r.pc = "s_fetch" ->
-               /\ cmd' = [cmd EXCEPT ![c] = IF ~good \/ PlanFails(plan) THEN Fin(r, FALSE)
+               /\ cmd' = [cmd EXCEPT ![c] = IF ~good \/ Malformed(R) \/ PlanFails(plan) THEN Fin(r, FALSE)
                                             ELSE IF PlanMsgs(plan) = <<>> THEN Fin(r, TRUE)
                                             ELSE [r EXCEPT !.pc = "s_post", !.posts = PlanMsgs(plan)]]
                /\ file' = file
